@@ -11,7 +11,7 @@ TECH = "deterministic simulation with fault injection (seeded schedule/fault sea
 # id -> (category, technique, text, note, design_ref)
 CLAIMED = {
     "C02": ("exploration", TECH,
-            "Seeded search over entry multisets, per-replica permutations with duplicates, ingress paths (local / remote / in-message), clean restarts, flushes and age-commit placements against the RefDoc reference model: every offer result and every dumped state must equal the model, and all replicas must agree with join(E); unrelated operations in between (writes to and removal of other documents, a policy, a peer registration, a read, a read-only capability import) must change nothing. The stores also hold neighbour documents (smaller and larger ids, ids ending in 0xFF) that take writes in between and must stay untouched. Exploration is the right level: the space of orders is unbounded, the model is tiny and exact.",
+            "Seeded search over entry multisets, per-replica permutations with duplicates, ingress paths (local / remote / in-message), clean restarts, flushes and age-commit placements against the RefDoc reference model: every offer result and every dumped state (author-ordered query, key-ordered query and a point lookup of every held entry) must equal the model, and all replicas must agree with join(E); unrelated operations in between (writes to and removal of other documents, a policy, a peer registration, a read, a read-only capability import) must change nothing. The stores also hold neighbour documents (smaller and larger ids, ids ending in 0xFF) that take writes in between and must stay untouched. Exploration is the right level: the space of orders is unbounded, the model is tiny and exact.",
             "Trusted: redb, ed25519 (deterministic signatures), postcard; entries with equal (timestamp, hash) but different length are outside the generator.", "5 C02"),
     "C13": ("exploration", TECH,
             "Same histories as C02 (older entries after newer ones, duplicates, restarts, age-commits); at check points the reported heads must equal the greatest held timestamp per author and has_news_for_us must equal the brute-force count; plus encode/decode of head sets of up to 320 authors under size limits placed at, one below and one above item boundaries (pure part, labelled).",
@@ -23,10 +23,10 @@ CLAIMED.update({
             "Two real replicas (redb in-memory / SimDisk / file) are filled to reachable states and run one complete session through a serialise/deserialise hop, for both initiators, split_factor 2-8, max_set_size 1-8 and age-commit placements inside message processing; half of the runs with keys of one length so that the surviving sets are large enough to split ranges, a third with the shipped configuration; oracles: bounded message count, both sides equal join(A0 u B0) from RefDoc, mirrored sent/received counts, silent second session.",
             "The decisive batch has at most 24 entries per side; a second batch (pair-large) runs 30-250 entries per side with fixed-length keys (600 runs quick, 30000 thorough).", "5 C01"),
     "C03": ("exploration", TECH,
-            "An adversarial transport corrupts honest entries in flight (bit flips in every field and both signatures, swapped/transplanted/foreign signatures, foreign namespace, non-curve ids, empty/len mismatch, short identifiers, one signature copied over the other, new content forged under another author's id by a holder of the document secret, a valid entry of a different document, timestamps at bound-1/bound/bound+1 us with the replica's clock skewed accordingly) and delivers each alone and at a random position of a reconciliation message next to valid entries, through the real store actor with subscribers; nothing forged may be stored, acknowledged or announced, the rest of the message must be applied, indexes and heads must stay consistent.",
+            "An adversarial transport corrupts honest entries in flight (bit flips in every field and both signatures, swapped/transplanted/foreign signatures, foreign namespace, non-curve ids, empty/len mismatch, short identifiers, one signature copied over the other, new content forged under another author's id by a holder of the document secret, a valid entry of a different document, timestamps at bound-1/bound/bound+1 us with the replica's clock skewed accordingly, and honestly signed entries a year, 2^63 us and u64::MAX ahead; the receiving store may own the author keys or hold the document read-only) and delivers each alone and at a random position of a reconciliation message next to valid entries, through the real store actor with subscribers; nothing forged may be stored, acknowledged or announced, the rest of the message must be applied, indexes and heads must stay consistent.",
             "Forgeries are mutations of honest entries; ed25519 itself is trusted.", "5 C03"),
     "C05": ("exploration", TECH,
-            "Random queries (kind x author filter x key filter x sort x direction x include-empty x offset x limit, plus point lookups) against states reached through pruning histories (stale index rows), clean restarts and derived-index rebuilds, compared with a brute-force evaluator over the RefDoc model. The simulator contributes the states; the decisive dimension for the query itself is input generation, which the evidence says.",
+            "Random queries (kind x author filter x key filter x sort x direction x include-empty x offset x limit, with the builder calls made in a plan-chosen order, plus point lookups) over stores with up to 4 documents, one of which may be removed and re-created in between, against states reached through pruning histories (stale index rows), clean restarts and derived-index rebuilds, compared with a brute-force evaluator over the RefDoc model. The simulator contributes the states; the decisive dimension for the query itself is input generation, which the evidence says.",
             "Latest-per-key with an author filter: documentation and code disagree on filter-before/after grouping and the statement is silent, so either reading is accepted for that one combination; ties in timestamp accept any tied entry.", "5 C05"),
     "C07": ("exploration", TECH,
             "Histories of read/write capability imports (right and other documents), local/remote/in-message writes, open/close, clean restarts, flush+crash restarts and removal over 2-4 documents against the RefStore model: local writes succeed iff the model capability is Write, remote entries are accepted regardless, the listed capability never downgrades and never changes for another document. A second batch drives the real store actor with imports while documents are open (the actor keeps its own in-memory copy of the capability) and judges the replies to writes, deletions, secret export and imports.",
@@ -50,10 +50,10 @@ CLAIMED.update({
 
 CLAIMED.update({
     "C04": ("exploration", TECH,
-            "2-5 nodes (SimDisk + store + real store actor, per-node skewed wall clock) take local writes and deletions; every local insert is broadcast through SimNet (deliver in any order, drop, duplicate, partition/heal) and applied by the remote-insert path as gossip::receive_loop does; sessions between pairs run over SimPipes frame by frame and are cut (EOF/reset) at any frame; nodes restart cleanly or crash (L1/L2); in half of the runs nodes first write dozens of keys whose broadcasts are all lost, and one node may hold the document read-only (a relay). Then faults stop and complete sessions along a random spanning tree must reach a silent round within nodes+1 rounds, with all nodes equal to the merge of what they held; without crashes also equal to the merge of all acknowledged local writes; no node ever holds an entry nobody wrote. A second batch runs the same histories with clock skew far beyond the future bound and judges the safety oracles only.",
+            "2-5 nodes (SimDisk + store + real store actor, per-node skewed wall clock) take local writes and deletions; every local insert is broadcast through SimNet (deliver in any order, drop, duplicate, partition/heal) and applied by the remote-insert path as gossip::receive_loop does; sessions between pairs run over SimPipes frame by frame and are cut (EOF/reset) at any frame; nodes restart through an orderly shutdown, by dropping the actor without a shutdown (only the store's destructor runs) or by a crash (L1/L2); in half of the runs nodes first write dozens of keys whose broadcasts are all lost, and one node may hold the document read-only (a relay). Then faults stop and complete sessions along a random spanning tree must reach a silent round within nodes+1 rounds, with all nodes equal to the merge of what they held; without crashes also equal to the merge of all acknowledged local writes; no node ever holds an entry nobody wrote. A second batch runs the same histories with clock skew far beyond the future bound and judges the safety oracles only.",
             "iroh-gossip delivery and QUIC are stubbed; the live actor's dial decisions are C11's subject. Clock skew is kept within the future bound (4 min).", "5 C04"),
     "C06": ("fault_enumeration", "deterministic simulation: per sampled history complete enumeration of crash points x loss models x age-commit placements on SimDisk, reference-model oracle",
-            "For each sampled history on a persistent store the simulator enumerates every crash point (after every backend write / set_len / sync) under loss models L1 and L2 for every single placement of the age-based auto-commit at each internal store call of each operation (thorough: sampled L3/torn images, EIO/ENOSPC, more double placements); each reopened image must open, equal a state the live store passed through between two complete operations not older than the last flush/read, and have consistent lookups, query paths and heads. A second batch (actor-crash, exploration) drives the real store actor on a SimDisk (pipelined requests from several clients, flush requests, the 500 ms flush timer, reads that commit) and kills it at a plan-chosen instant with or without letting it drain its inbox: the reopened image (all writes / synced writes only) must equal the state after some whole request not older than the last acknowledged flush.",
+            "For each sampled history on a persistent store the simulator enumerates every crash point (after every backend write / set_len / sync) under loss models L1 and L2 for every single placement of the age-based auto-commit at each internal store call of each operation (operations: capability import, offers on three paths, multi-entry messages, policies, peer registrations, removal, flush, and every read path: queries, lists, point lookups, heads, peers, policy, author key, content hashes) (thorough: sampled L3/torn images, EIO/ENOSPC, more double placements); each reopened image must open, equal a state the live store passed through between two complete operations not older than the last flush/read, and have consistent lookups, query paths and heads. A second batch (actor-crash, exploration) drives the real store actor on a SimDisk (pipelined requests from several clients, flush requests, the 500 ms flush timer, reads that commit) and kills it at a plan-chosen instant with or without letting it drain its inbox: the reopened image (all writes / synced writes only) must equal the state after some whole request not older than the last acknowledged flush.",
             "redb's commit protocol and recovery are trusted (crashes during the two writes that create the database are excluded). The histories themselves are sampled; the per-history crash x placement space is exhaustive.", "5 C06"),
     "C09": ("exploration", TECH,
             "Stream part: real protocol messages are framed by the real codec and reach the real frame reader through a SimPipe under plan-chosen release sizes and read chunks, truncation after any byte, single-byte corruption, oversized and understated length prefixes: clean streams must decode to the input, truncated ones to a prefix followed by end or error, oversized prefixes to an error or need-more-data, a frame whose prefix understates its payload to an error, never a bogus message or a panic. Pure part (labelled, not simulation): round trips and hostile bytes for signed entries, author heads, tickets, capabilities, filters, policies; the three pinned encodings are recomputed.",
@@ -68,7 +68,7 @@ CLAIMED.update({
             "One real store actor with 0-4 subscribers (channel capacities 1-32) that the driver drains, pauses, unsubscribes or drops at plan-chosen instants (also while the actor is blocked sending to them); local inserts/deletions, valid/superseded/badly signed remote inserts, reconciliation messages interleaved with local writes, policy changes; in half of the runs a neighbouring document of the same store with its own subscriber and policy takes writes and policy changes in between; capability imports on the open document (which may start read-only), additional handles opened and released, the sync switch; every subscriber must have received exactly the applied entries, once, in application order, with the right variant, peer, content status and download flag.",
             "A subscriber that never drains is outside the documented contract and is not injected (paused ones are resumed when the actor blocks on them).", "5 C12"),
     "C14": ("exploration", TECH,
-            "1-3 clients pipeline 6-60 requests into one real store actor (its unchanged run loop polled on the simulator's paused runtime); every reply is compared with a sequential model applied in send order: handle counting, close result, gates for not-open / sync-off / read-only, sticky sync, FIFO visibility, get-many snapshots consumed after later writes, shutdown returning a store (and a disk image) with every acknowledged write; the model also predicts get_state (handles, sync, subscriber count), set/get download policy, register/list useful peers and has-news; documents may start read-only; a third of the disk-backed runs end in a crash judged against per-request snapshots; faults: reply receivers dropped before the answer, streams dropped, flush timer firing between batches, shutdown with requests queued behind it.",
+            "1-3 clients pipeline 6-60 requests into one real store actor (its unchanged run loop polled on the simulator's paused runtime); every reply is compared with a sequential model applied in send order: handle counting, close result, gates for not-open / sync-off / read-only, sticky sync, FIFO visibility, get-many snapshots consumed after later writes, shutdown returning a store (and a disk image) with every acknowledged write; the model also predicts get_state (handles, sync, subscriber count), set/get download policy, register/list useful peers, has-news, the lists of documents and authors, the content-hash report and author-key import/export/delete (a local write needs its author's key); documents may start read-only; a third of the disk-backed runs end in a crash judged against per-request snapshots; faults: reply receivers dropped before the answer, streams dropped, flush timer firing between batches, shutdown with requests queued behind it.",
             "Because the inbox is FIFO the linearizability check degenerates to replay of the sequential model in send order. drop_replica with more than one handle is not generated (the statement does not define its effect on the handle count).", "5 C14"),
 })
 
